@@ -500,24 +500,47 @@ def _fs_checks(res=None):
                                        "%r with a socket of that name in the current directory, %r without" % (after, before[v_])))
         finally:
             os.chdir(cwd)
-        for value, ok in (("C", True), ("POSIX", True), ("", True),
-                          ("xx_YY.no-such-charset", False), ("no such locale", False)):
-            for _ in range(2):          # memoised conversion: ask twice
-                try:
-                    v = reg.get("locale")(value)
-                    got = True
-                except ValueError:
-                    got = False
-                except BaseException as e:  # noqa
-                    out.append(failure("locale:wrong-exception:%s" % type(e).__name__,
-                                       {"kind": "fs", "type": "locale", "s": value}, repr(e)))
-                    continue
-                if res is not None:
-                    res.evaluations += 1
-                    res.nontrivial(key="locale" + value)
-                if got != ok or (ok and v != value):
-                    out.append(failure("locale:%s" % ("rejected" if ok else "accepted"),
-                                       {"kind": "fs", "type": "locale", "s": value}, ""))
+        import locale as _locale
+        ambient = _locale.setlocale(_locale.LC_ALL)
+        others = []
+        for cand in ("C.utf8", "C.UTF-8", "en_US.UTF-8"):
+            try:
+                _locale.setlocale(_locale.LC_ALL, cand)
+                others.append(cand)
+                break
+            except _locale.Error:
+                pass
+        _locale.setlocale(_locale.LC_ALL, ambient)
+        values = (("C", True), ("POSIX", True), ("", True), ("xx_YY.no-such-charset", False),
+                  ("no such locale", False)) + tuple((o, True) for o in others)
+        for current in [ambient] + others:
+            for value, ok in values:
+                for _ in range(2):          # memoised conversion: ask twice
+                    _locale.setlocale(_locale.LC_ALL, current)
+                    before_ = _locale.setlocale(_locale.LC_ALL)
+                    try:
+                        try:
+                            v = reg.get("locale")(value)
+                        finally:
+                            after_ = _locale.setlocale(_locale.LC_ALL)
+                            _locale.setlocale(_locale.LC_ALL, ambient)
+                            if after_ != before_:
+                                out.append(failure("locale:conversion-changes-the-process-locale",
+                                                   {"kind": "fs", "type": "locale", "s": value},
+                                                   "%r before, %r after" % (before_, after_)))
+                        got = True
+                    except ValueError:
+                        got = False
+                    except BaseException as e:  # noqa
+                        out.append(failure("locale:wrong-exception:%s" % type(e).__name__,
+                                           {"kind": "fs", "type": "locale", "s": value}, repr(e)))
+                        continue
+                    if res is not None:
+                        res.evaluations += 1
+                        res.nontrivial(key="locale" + value)
+                    if got != ok or (ok and v != value):
+                        out.append(failure("locale:%s" % ("rejected" if ok else "accepted"),
+                                           {"kind": "fs", "type": "locale", "s": value}, ""))
         if res is not None:
             res.sample({"kind": "fs", "tree": ["dir/", "dir/file.txt"],
                         "types": ["existing-directory", "existing-path", "existing-file",
